@@ -87,13 +87,18 @@ func (ws *WritingState) Stop() error {
 	ws.Active = false
 	ws.Paused = false
 	ws.FilenamePattern = ""
-	if ws.experimentStateFile != nil {
-		if err := ws.setExperimentStateLabel(time.Now(), "STOP"); err != nil {
-			return err
+	// Close and forget every file even if one step fails (e.g. the disk is full): a handle kept after a
+	// failed STOP would be written to by the next run. The first error is reported at the end.
+	var firstErr error
+	note := func(err error) {
+		if err != nil && firstErr == nil {
+			firstErr = err
 		}
-
+	}
+	if ws.experimentStateFile != nil {
+		note(ws.setExperimentStateLabel(time.Now(), "STOP"))
 		if err := ws.experimentStateFile.Close(); err != nil {
-			return fmt.Errorf("failed to close experimentStatefile, err: %v", err)
+			note(fmt.Errorf("failed to close experimentStatefile, err: %v", err))
 		}
 	}
 	ws.experimentStateFile = nil
@@ -102,20 +107,20 @@ func (ws *WritingState) Stop() error {
 	ws.ExperimentStateLabelUnixNano = 0
 	if ws.externalTriggerFile != nil {
 		if err := ws.externalTriggerFileBufferedWriter.Flush(); err != nil {
-			return fmt.Errorf("failed to flush externalTriggerFileBufferedWriter, err: %v", err)
+			note(fmt.Errorf("failed to flush externalTriggerFileBufferedWriter, err: %v", err))
 		}
 		if err := ws.externalTriggerFile.Close(); err != nil {
-			return fmt.Errorf("failed to close externalTriggerFile, err: %v", err)
+			note(fmt.Errorf("failed to close externalTriggerFile, err: %v", err))
 		}
 		ws.externalTriggerFileBufferedWriter = nil
 		ws.externalTriggerFile = nil
 	}
 	if ws.dataDropFile != nil {
 		if err := ws.dataDropFileBufferedWriter.Flush(); err != nil {
-			return fmt.Errorf("failed to flush externalTriggerFileBufferedWriter, err: %v", err)
+			note(fmt.Errorf("failed to flush externalTriggerFileBufferedWriter, err: %v", err))
 		}
 		if err := ws.dataDropFile.Close(); err != nil {
-			return fmt.Errorf("failed to close dataDropFile, err: %v", err)
+			note(fmt.Errorf("failed to close dataDropFile, err: %v", err))
 		}
 		ws.dataDropFileBufferedWriter = nil
 		ws.dataDropFile = nil
@@ -123,7 +128,7 @@ func (ws *WritingState) Stop() error {
 	ws.externalTriggerNumberObserved = 0
 	ws.ExternalTriggerFilename = ""
 	ws.DataDropFilename = ""
-	return nil
+	return firstErr
 }
 
 // SetExperimentStateLabel writes to a file with name like XXX_experiment_state.txt
